@@ -1,7 +1,7 @@
 """Symbolic implementations of the spec vocabulary primitives (spec/prims.py)."""
 from __future__ import annotations
 import z3
-from .types import INT, BOOL, REAL, STR, V, VPy
+from .types import z3_string_value, INT, BOOL, REAL, STR, CPS, V, VPy
 from .sym import Unsupported
 from . import regexc
 
@@ -12,7 +12,7 @@ def install(world):
     def p_fullmatch(eng, args, st, node):
         rx, s = args
         if isinstance(rx, V) and z3.is_string_value(rx.term):
-            text = rx.term.as_string()
+            text = z3_string_value(rx.term)
         elif isinstance(rx, VPy) and isinstance(rx.obj, str):
             text = rx.obj
         else:
@@ -28,6 +28,23 @@ def install(world):
         f = world.ufunc('float_value', STR.sort(), REAL.sort())
         return V(REAL, f(eng.coerce(args[0], STR, node).term))
 
+    def p_cp(eng, args, st, node):
+        return V(CPS, z3.Unit(eng.coerce(args[0], INT, node).term))
+
+    def hex_cps(n):
+        """format(n, 'x') as code points: exact for 0 <= n < 256, uninterpreted above."""
+        def hd(d):
+            return z3.If(d < 10, 0x30 + d, 0x57 + d)
+        f = world.ufunc('hexdigits_big', INT.sort(), CPS.sort())
+        return z3.If(z3.And(n >= 0, n < 16), z3.Unit(hd(n)),
+                     z3.If(z3.And(n >= 16, n < 256), z3.Concat(z3.Unit(hd(n / 16)), z3.Unit(hd(n % 16))), f(n)))
+    world.hex_cps = hex_cps
+
+    def p_hexdigits(eng, args, st, node):
+        return V(CPS, hex_cps(eng.coerce(args[0], INT, node).term))
+
+    world.add_prim('cp', p_cp, P.cp)
+    world.add_prim('hexdigits', p_hexdigits, P.hexdigits)
     world.add_prim('fullmatch', p_fullmatch, P.fullmatch)
     world.add_prim('dec', p_dec, P.dec)
     world.add_prim('fdec', p_fdec, P.fdec)
